@@ -365,6 +365,22 @@ def run(ctx, spec):
             sys.setrecursionlimit(10000)
             check_tree(ctx, shape_of(0), triples=True, pairs_cap=1500, rng=rng)
             check_reindexed(ctx, shape_of(0), random_ops(rng, n, rng.randint(1, 4)), rng=rng)
+        # lopsided trees: one root child is bushy (many leaves, few nodes), another holds long chains of single-child
+        # nodes (few leaves, many nodes) - leaf counts and node counts disagree about which side is "large"
+        for k in range(12 if ctx.tier == "quick" else 150):
+            def chain(n, tail):
+                sh = tail
+                for _ in range(n):
+                    sh = (sh,)
+                return sh
+
+            bushy = tuple(None for _ in range(rng.randint(2, 6))) if rng.random() < 0.5 else ((None, None), (None, None), None)
+            chains = tuple(chain(rng.randint(3, 9), rng.choice([None, (None, None)])) for _ in range(rng.randint(2, 3)))
+            heavy = chains if rng.random() < 0.6 else (chains,)
+            kids = [bushy, heavy] + ([chain(rng.randint(1, 4), None)] if rng.random() < 0.3 else [])
+            rng.shuffle(kids)
+            ctx.count("mon.lopsided_trees")
+            check_tree(ctx, tuple(kids), triples=False, pairs_cap=2500, rng=rng)
         # big trees (hundreds to thousands of nodes): sparse-table levels 10+, Euler tours longer than 1024/2048 entries
         for k in range(2 if ctx.tier == "quick" else 8):
             n = rng.choice([300, 700, 1100, 1600, 2500])
